@@ -1246,3 +1246,53 @@ impl ClearVOBitsAfterPrepare {
         }
     }
 }
+
+/// Hooks for the external verification harness.
+#[cfg(feature = "mmtk_verif")]
+pub mod verif_hooks {
+    use super::ImmixSpace;
+    use crate::util::ObjectReference;
+    use crate::vm::VMBinding;
+    use std::alloc::{alloc_zeroed, dealloc, Layout};
+    use std::marker::PhantomData;
+
+    /// Runs the real `ImmixSpace::attempt_mark` without building a space.  `attempt_mark` takes
+    /// `&self` but reads no field of it, so a zero-filled allocation of the right layout stands
+    /// in for the space; it is never read, moved or dropped as an `ImmixSpace`.
+    pub struct AttemptMark<VM: VMBinding> {
+        mem: *mut u8,
+        _p: PhantomData<VM>,
+    }
+
+    unsafe impl<VM: VMBinding> Send for AttemptMark<VM> {}
+    unsafe impl<VM: VMBinding> Sync for AttemptMark<VM> {}
+
+    impl<VM: VMBinding> Default for AttemptMark<VM> {
+        fn default() -> Self {
+            Self::new()
+        }
+    }
+
+    impl<VM: VMBinding> AttemptMark<VM> {
+        /// Allocate the stand-in.
+        pub fn new() -> Self {
+            let mem = unsafe { alloc_zeroed(Layout::new::<ImmixSpace<VM>>()) };
+            assert!(!mem.is_null());
+            Self {
+                mem,
+                _p: PhantomData,
+            }
+        }
+        /// `ImmixSpace::attempt_mark(object, mark_state)`.
+        pub fn attempt_mark(&self, object: ObjectReference, mark_state: u8) -> bool {
+            let space = unsafe { &*(self.mem as *const ImmixSpace<VM>) };
+            space.attempt_mark(object, mark_state)
+        }
+    }
+
+    impl<VM: VMBinding> Drop for AttemptMark<VM> {
+        fn drop(&mut self) {
+            unsafe { dealloc(self.mem, Layout::new::<ImmixSpace<VM>>()) }
+        }
+    }
+}
